@@ -58,6 +58,7 @@ type Oracles struct {
 	payloadAt           map[uint64]uint64
 	watched             map[uint64]string
 	bootstrapped        bool
+	leaderCfgs          map[string][]leaderCfg // per server: the configurations it appended as leader, in order
 	cfgPrev             map[string]uint64 // "server/index" of a configuration entry appended by a leader -> index of the configuration it replaced
 	unconfirmedRestores map[string]int // user restores that replaced a server's state but have not returned nil
 	timeoutNows         map[string][]int64
@@ -485,6 +486,26 @@ func (o *Oracles) agreedStateAt(index uint64) (agreedCmd, bool) {
 	return o.agreed[i-1], true
 }
 
+type leaderCfg struct {
+	Seq     int
+	Term    uint64
+	Members map[string]bool
+}
+
+// NotMemberAt: at sequence point seq, the latest configuration that leader had
+// appended itself in this term of its leadership (if any) did not contain peer
+// at all - the leader had removed it. (Configurations it appended in earlier
+// terms may have been truncated or superseded and say nothing.) Caller holds W.Mu.
+func (o *Oracles) NotMemberAt(leader, peer string, seq int, term uint64) bool {
+	recs := o.leaderCfgs[leader]
+	for i := len(recs) - 1; i >= 0; i-- {
+		if recs[i].Seq < seq && recs[i].Term == term {
+			return !recs[i].Members[peer]
+		}
+	}
+	return false
+}
+
 // PrevCfgOfAppend: the index of the configuration that was the latest one in
 // srv's log when it appended, as leader, the configuration entry at index.
 // Caller holds W.Mu.
@@ -516,6 +537,14 @@ func (o *Oracles) checkLeaderAppend(op *DiskOp) {
 			o.cfgPrev = map[string]uint64{}
 		}
 		o.cfgPrev[fmt.Sprintf("%s/%d", in.ID(), l.Index)] = prevIdx
+		members := map[string]bool{}
+		for _, sv := range raft.DecodeConfiguration(l.Data).Servers {
+			members[string(sv.ID)] = true
+		}
+		if o.leaderCfgs == nil {
+			o.leaderCfgs = map[string][]leaderCfg{}
+		}
+		o.leaderCfgs[in.ID()] = append(o.leaderCfgs[in.ID()], leaderCfg{Seq: o.w.Seq, Term: l.Term, Members: members})
 		if prevIdx > commit {
 			o.w.violate("C07", "R2", "C07/R2/config-appended-before-previous-committed",
 				"%s (term %d) appends configuration at %d while its previous configuration at %d is above its commit index %d", in.ID(), l.Term, l.Index, prevIdx, commit)
